@@ -1,6 +1,6 @@
 (** Protocol operations of the C01 widening (appended to [ops_C01] in Run/C01.v). *)
 From Coq Require Import ZArith List Bool String.
-From Low Require Import Lib.Bits Lib.BitSeq Lib.Val Model.Rank Model.Rank32 Model.RankOps
+From Low Require Import Lib.MachInt Lib.Bits Lib.BitSeq Lib.Val Model.Rank Model.Rank32 Model.RankOps
   Spec.RankSpec Spec.RankLawsSpec.
 Import ListNotations.
 Open Scope string_scope.
@@ -98,6 +98,19 @@ Definition ops_C01_wide : list opdef := [
            | Some ws => let '(x, y, z) := spec_indexes ws in VL [vzs x; vzs y; vzs z]
            | _ => VBad end
        | _ => VBad end) |};
+  (* rank0: the bitmap and its complement (every word negated) at the same position: counts add up to i, bits to 1 *)
+  {| op_name := "bitmap.Rank/complement";
+     op_run := fun a => match a with
+       | [ws; f; i] => match as_zs ws, as_flavour f, as_z i with
+           | Some ws, Some f, Some i =>
+               if (0 <=? i) && (i <? 64 * zlen ws) then VL [vq (query f ws i); vq (query f (map not64 ws) i)] else VBad
+           | _, _, _ => VBad end
+       | _ => VBad end;
+     op_spec := fun a obs => match a, obs with
+       | [ws; f; i], VL [q; q'] => match as_z i, as_pair q, as_pair q' with
+           | Some i, Some (r, b), Some (r', b') => (r + r' =? i) && (b + b' =? 1) && (0 <=? r) && (0 <=? r')
+           | _, _, _ => false end
+       | _, _ => false end |};
   (* the same on a run-length encoded bitmap [[count, word], ...] (large bitmaps with long constant runs) *)
   {| op_name := "bitmap.IndexRank/rle";
      op_run := fun a => match a with
